@@ -8,6 +8,8 @@ import (
 	"fmt"
 	"os"
 	"path/filepath"
+
+	"verifgo/facts"
 )
 
 var (
@@ -31,6 +33,7 @@ func writeIfChanged(name, content string) {
 
 func main() {
 	flag.Parse()
+	facts.Repo = *repo
 	if err := os.MkdirAll(*out, 0o755); err != nil {
 		panic(err)
 	}
